@@ -2,15 +2,30 @@
 
 spec/Generator.tla (on top of Node.tla / LiskBFT.tla):
  (a) Select: admissible payloads for a pool, verify/execute outcomes and a size limit. TLC enumerates every pool of
-     <= 3 senders with <= SelMaxTx transactions (2 fee ranks, sizes 1-2, outcome ok/verify-fail/execute-fail per
-     transaction) and evaluates larger pools (up to 3 x 3, 3 ranks) drawn from VERIF_SEED, for the limits 1..6; the
-     harness runs the real selectTransactionsByFee (+ limitTransactionsWithSize) on every case and limit.
- (b) forge / recv / switch (to a better, possibly shorter chain) / crash / restart behaviours, checked exhaustively by
-     TLC for NoSelfContradiction, MhgLargestEver, PersistedBeforeHandoff, ForgeOutputAccepted; the scripts TLC prints
-     are replayed on the real generator.Generator wired to the real consensus.Executer (last Forge of every script
-     through the unmodified forge()), generator database on a strict in-memory file system.
+     <= 3 senders with <= SelMaxTx transactions (2 fee ranks, sizes 1-2, outcome ok / verification invalid / pending /
+     execution invalid per transaction), every pool of <= 2 transactions with all seven outcomes (also: executed with
+     result Fail = stays in the block; the verification / execution call itself returns an error) and evaluates larger
+     pools drawn from VERIF_SEED (3 senders x 3 transactions; 5-6 senders, 6 fee ranks, limits 1..9); the harness runs
+     the real selectTransactionsByFee (+ limitTransactionsWithSize) on every case and limit, under two concretisations of
+     the fee ranks (rank * 1000; the boundary table 0, 1, 999, 1000, 2^31, 2^40 with a non-integer fee/size quotient)
+     and with the byte limit exactly / one byte below / one byte above a whole number of units.
+     Where the statement is silent the specification is nondeterministic: equal priorities (any order), a candidate that
+     does not fit (stop, or leave that sender out and go on).
+ (b) forge / recv / recv-with-validator-set-change / switch (to a better, possibly shorter chain) / crash / restart
+     behaviours, checked exhaustively by TLC for NoSelfContradiction, MhgLargestEver, PersistedBeforeHandoff,
+     ForgeOutputAccepted; the scripts TLC prints are replayed on the real generator.Generator wired to the real
+     consensus.Executer (last Forge of every script through the unmodified forge(), then the generator is restarted and
+     signs one more header whose maxHeightGenerated the specification fixes), generator database on a strict in-memory
+     file system.  Prefixes that end with a Forge below the largest height ever put the unmodified forge() there.
  (c) every block produced in (b) and in three directed scenarios (validator-set change, aggregate commit of all / of a
-     subset of the validators) is processed by the same node and must be accepted.
+     subset of the validators) is processed by the same node and must be accepted.  The application returns two block
+     assets in descending module order in every third forge, emits events from the before-, transaction- and
+     after-transactions hooks, and pools are chosen so that payloads of 1..4 transactions fill the limit to the byte.
+ A static guard (go/ast) compares VerifForgeOnce with forge(): a drift makes the run inconclusive.
+ The generator declining to generate (or a selection that fails) is no violation - the statement is about the blocks that
+ are produced - but makes the run inconclusive.  VERIF_EXPERIMENTAL=1 (the default bin/check sets for C15 since the finding
+ was repaired in /repo, bc0cbed): the application's state root depends on the ORDER in which the hooks receive the block
+ assets (key generated-block-rejected:hooks-see-unsorted-assets); with 0 the application reads its assets by module name.
 Two control runs (implementation-shape constants MhgRule = "last", PersistFirst = FALSE) must make TLC report a
 self-contradiction, otherwise the model is vacuous (exit 2)."""
 import json, os, random, re
@@ -20,8 +35,12 @@ from common import Inconclusive, finish, log
 from props import c01
 
 LEVEL = "model_checking"
-NODE1 = dict(nval=3, batch=3, init=dict(pcT=5, certT=5, w=[1, 3, 3], gens=[1, 2, 3]), choices=[], now=0, network=False)
+# afterEvent: the toy application also emits an event from the after-transactions hook (generation and validation)
+NODE1 = dict(nval=3, batch=3, init=dict(pcT=5, certT=5, w=[1, 3, 3], gens=[1, 2, 3]), choices=[], now=0, network=False, afterEvent=True)
 NODE12 = dict(nval=3, batch=3, init=dict(pcT=5, certT=5, w=[1, 1, 5], gens=[1, 2, 3]), choices=[], now=0, network=False)
+# validator-set changes: MCGenerator.tla ChoiceA / ChoiceB (other weights, permuted generator list)
+NODE1C = dict(NODE1, choices=[dict(pcT=5, certT=5, w=[1, 2, 4], gens=[3, 1, 2])])
+NODE12C = dict(NODE12, choices=[dict(pcT=5, certT=5, w=[1, 2, 5], gens=[2, 1, 3])], afterEvent=True)
 
 
 def _dumps_sorted(ctx, out):
@@ -41,16 +60,41 @@ def tla_pool(pool):
     return "<<" + ", ".join("<<" + ", ".join('[r |-> %d, z |-> %d, o |-> "%s"]' % (t["r"], t["z"], t["o"]) for t in s) + ">>" for s in pool) + ">>"
 
 
+BAD = ["vf", "vp", "xf", "ve", "xr"]     # the sender is dropped; "xe" (executed, result Fail) stays in the block like "ok"
+
+
+def _outcome(rnd, fail):
+    x = rnd.random()
+    if x < fail:
+        return rnd.choice(BAD)
+    if x < fail + 0.12:
+        return "xe"
+    return "ok"
+
+
 def random_pools(seed, n, ranks=3):
     rnd = random.Random(seed * 7919 + 15)
     pools = []
     while len(pools) < n:
         lens = sorted([rnd.choice([0, 1, 2, 3, 3]), rnd.choice([1, 2, 3, 3]), rnd.choice([2, 3, 3])], reverse=True)
         fail = rnd.choice([0.0, 0.15, 0.35])
-        pool = [[dict(r=rnd.randint(1, ranks), z=rnd.randint(1, 2), o=("ok" if rnd.random() >= fail else rnd.choice(["vf", "vp", "xf"])))
-                 for _ in range(k)] for k in lens]
+        pool = [[dict(r=rnd.randint(1, ranks), z=rnd.randint(1, 2), o=_outcome(rnd, fail)) for _ in range(k)] for k in lens]
         if sum(lens) >= 5:
             pools.append(pool)
+    return pools
+
+
+def random_wide_pools(seed, n, ranks=6):
+    """5-6 senders (a candidate heap three levels deep), 6 fee ranks (the harness concretises them through a table of
+    boundary priorities as well), 7-13 transactions, every outcome"""
+    rnd = random.Random(seed * 104729 + 15)
+    pools = []
+    while len(pools) < n:
+        lens = [rnd.choice([1, 1, 2, 2, 3]) for _ in range(rnd.choice([5, 6]))]
+        if not 7 <= sum(lens) <= 13:
+            continue
+        fail = rnd.choice([0.0, 0.0, 0.1, 0.25])
+        pools.append([[dict(r=rnd.randint(1, ranks), z=rnd.choice([1, 1, 2]), o=_outcome(rnd, fail)) for _ in range(k)] for k in lens])
     return pools
 
 
@@ -60,18 +104,25 @@ def select_cases(ctx, quick):
     r = ctx.tlc("MCGenerator", cfg, workers=6 if quick else 8, timeout=1500)
     _no_violation(r, "Generator.tla part (a) (SelSoundInv: Select does not satisfy the statement's own constraints)")
     cases = _dumps_sorted(ctx, r["out"])
-    pools = random_pools(ctx.seed, 500 if quick else 3000)
+    # every outcome (incl. executed-with-result-Fail and failing application calls) exhaustively on pools of <= 2 transactions
+    cfg7 = c01.write_cfg(ctx, "gen_select_out7", c01.cfg_text("Generator_select", SelMaxTx=2 if quick else 3, SelOutcomes="Out7"))
+    r7 = ctx.tlc("MCGenerator", cfg7, workers=2 if quick else 6, timeout=1500)
+    _no_violation(r7, "Generator.tla part (a) with all outcomes")
+    have = set(cases)
+    cases7 = [c for c in _dumps_sorted(ctx, r7["out"]) if c not in have]
+    # drawn pools: 3 senders x <= 3 transactions, and 5-6 senders with 6 fee ranks (limits 1..9)
+    pools = random_pools(ctx.seed, 500 if quick else 3000) + random_wide_pools(ctx.seed, 300 if quick else 3000)
     mod = "---- MODULE MCGeneratorGiven ----\nEXTENDS MCGenerator\nGivenPools == <<\n" + ",\n".join(tla_pool(p) for p in pools) + "\n>>\n====\n"
-    cfg2 = c01.write_cfg(ctx, "gen_select_given", c01.cfg_text("Generator_select", SelGiven="GivenPools", SelRanks=3, SelMaxTx=9))
+    cfg2 = c01.write_cfg(ctx, "gen_select_given", c01.cfg_text("Generator_select", SelGiven="GivenPools", SelRanks=6, SelMaxTx=13, SelMaxLimit=9, SelOutcomes="Out7"))
     r2 = ctx.tlc("MCGeneratorGiven", cfg2, workers=4, timeout=1500, files={"MCGeneratorGiven.tla": mod})
     _no_violation(r2, "Generator.tla part (a) on the drawn pools")
     big = _dumps_sorted(ctx, r2["out"])
-    if len(cases) < 5000 or len(big) < 0.9 * len(pools):
-        raise Inconclusive("TLC printed only %d + %d selection cases" % (len(cases), len(big)))
+    if len(cases) < 5000 or len(cases7) < 500 or len(big) < 0.9 * len(pools):
+        raise Inconclusive("TLC printed only %d + %d + %d selection cases" % (len(cases), len(cases7), len(big)))
     path = ctx.path("cases.ndjson")
     with open(path, "w") as fh:
-        fh.write("\n".join(cases + big) + "\n")
-    return path, len(cases), len(big), maxtx
+        fh.write("\n".join(cases + cases7 + big) + "\n")
+    return path, len(cases) + len(cases7), len(big), maxtx
 
 
 # ---------------------------------------------------------------------------------------------- part (b)
@@ -92,15 +143,43 @@ def control(ctx, name, **kw):
     return r
 
 
-def pick_scripts(ctx, lines, cap, tag):
+def pick_scripts(ctx, lines, cap, tag, prefer='"critical": true'):
     """all scripts are deterministic in VERIF_SEED (sorted, then a seeded sample); critical ones are preferred"""
     rnd = random.Random(ctx.seed * 31 + len(tag))
-    crit = [l for l in lines if '"critical": true' in l]
-    rest = [l for l in lines if '"critical": true' not in l]
+    crit = [l for l in lines if prefer in l]
+    rest = [l for l in lines if prefer not in l]
     rnd.shuffle(crit); rnd.shuffle(rest)
     take = crit[: (2 * cap) // 3]
     take += rest[: cap - len(take)]
     return take
+
+
+def low_last(ctx, lines, cap, nval=3):
+    """Prefixes of printed scripts that END with a Forge below the largest height the generator ever generated (the
+    statement's scenario: generating at a lower height after a move to a shorter chain).  The harness runs the last Forge of
+    a script through the unmodified forge() and then restarts the generator and lets it sign one more header, so these
+    prefixes put the production path exactly there.  `next` (the maxHeightGenerated of that next header) is what the
+    specification's Forge step recorded as persisted: max(info.h, info.mhg)."""
+    rnd = random.Random(ctx.seed * 131 + 7)
+    res, seen = [], set()
+    lines = list(lines); rnd.shuffle(lines)
+    for l in lines:
+        if len(res) >= cap:
+            break
+        sc = json.loads(l)["script"]
+        idx = [i for i, st in enumerate(sc[:-1]) if st["op"] == "forge" and not st["crash"] and st["h"] < st["mhg"]]
+        if not idx:
+            continue
+        i = idx[rnd.randrange(len(idx))]
+        pre = sc[:i + 1]
+        key = json.dumps(pre, sort_keys=True)
+        if key in seen:
+            continue
+        seen.add(key)
+        nxt = [0] * nval
+        nxt[pre[-1]["gen"] - 1] = max(pre[-1]["info"]["h"], pre[-1]["info"]["mhg"])
+        res.append(json.dumps(dict(script=pre, critical=False, chgforge=False, next=nxt, lowlast=True), sort_keys=True))
+    return res
 
 
 def forge_replay(ctx, binp, lines, hcfg, cases, name, extras):
@@ -252,8 +331,9 @@ def run(ctx):
             res = select_replay(ctx, binp, cf, "replay")
             n = res["cases"]
         else:
-            hcfg = dict(node=NODE12 if d.get("own") == [1, 2] else NODE1, own=d.get("own") or [1])
-            line = json.dumps(dict(script=d["script"], idx=d.get("idx"), cases=d.get("cases"), extra=d.get("extra") or "", signers=d.get("signers"), critical=False))
+            hcfg = dict(node=d.get("node") or (NODE12 if d.get("own") == [1, 2] else NODE1), own=d.get("own") or [1])
+            line = json.dumps(dict(script=d["script"], idx=d.get("idx"), cases=d.get("cases"), extra=d.get("extra") or "", signers=d.get("signers"), critical=False,
+                                   next=d.get("next")))
             res = forge_replay(ctx, binp, [line], hcfg, None, "replay", False)
             n = res["scripts"]
         report(ctx, res)
@@ -274,38 +354,87 @@ def run(ctx):
             f_b2 = ex.submit(exhaustive, ctx, "gen_exh_own12", 3, MaxSteps=7, MaxLen=5, MaxRecv=2, DumpEvery=40, InitW="W115", Own="Own12")
             f_c1 = ex.submit(control, ctx, "gen_ctl_last", MaxSteps=7, MaxLen=5, MaxRecv=2, MhgRule='"last"')
         f_c2 = ex.submit(control, ctx, "gen_ctl_persist", MaxSteps=6, MaxLen=5, MaxRecv=2, PersistFirst="FALSE")
+        # a block of another validator changes the validator set (weights, permuted generator list) before the generator
+        # under test generates: RecvChg, one change per behaviour
+        d = 5 if quick else 6
+        f_g1 = ex.submit(exhaustive, ctx, "gen_exh_chg_own1", 3, MaxSteps=d, MaxLen=5, MaxRecv=2, DumpEvery=3 if quick else 8, ParamChoices="ChoiceA", MaxChg=1)
+        f_g2 = ex.submit(exhaustive, ctx, "gen_exh_chg_own12", 3, MaxSteps=d, MaxLen=5, MaxRecv=2, DumpEvery=3 if quick else 8, InitW="W115", Own="Own12", ParamChoices="ChoiceB", MaxChg=1)
         binp = f_bin.result()
         cases, n_exh, n_big, maxtx = f_sel.result()
         b1, b2, c1, c2 = f_b1.result(), f_b2.result(), f_c1.result(), f_c2.result()
         b3 = f_b3.result() if f_b3 else None
+        g1, g2 = f_g1.result(), f_g2.result()
+
+    # ---- is VerifForgeOnce (all forges but one per script) still forge()?  (verdict at the end: never a violation)
+    gp = ctx.run([binp, "guard", os.path.join(common.REPO, "pkg/generator/generator.go"), os.path.join(common.REPO, "pkg/generator/export_verif.go")], timeout=300)
+    try:
+        guard = json.loads(gp.stdout)
+    except Exception:
+        guard = dict(equal=False, error="guard output unreadable: %s" % (gp.stdout[-300:] + gp.stderr[-300:]))
 
     # ---- (a) on the real selection
     rs = select_replay(ctx, binp, cases, "select")
     report(ctx, rs)
     log("[c15] select: cases=%d selections=%d ambiguous=%d violations=%s" % (rs["cases"], rs["selections"],
         rs["selections_with_several_admissible_payloads"], rs.get("violations_per_key")))
-    if rs["cases"] < n_exh + n_big or rs["selections"] < 6 * rs["cases"]:
+    if rs["cases"] < n_exh + n_big or rs["selections"] + rs["selections_aborted_with_error"] < 12 * rs["cases"]:
         raise Inconclusive("the select harness evaluated only %d of %d cases" % (rs["cases"], n_exh + n_big))
+    oc = rs["selection_cases_per_outcome"]
+    if (rs["selections_with_boundary_rank_table"] < rs["selections"] // 3 or rs["selections_with_5_or_more_senders"] < 2000
+            or rs["selections_with_7_or_more_transactions_taken"] < 100 or min(oc.get(o, 0) for o in ("xe", "ve", "xr")) < 150):
+        raise Inconclusive("the selection cases did not exercise enough (boundary priorities / 5-6 senders / deep payloads / outcomes %s): vacuous" % oc)
 
     # ---- (b) + (c) on the real generator
     cap = 700 if quick else 5000
-    s1 = pick_scripts(ctx, _dumps_sorted(ctx, b1["out"]), cap, "own1")
+    d1, d2 = _dumps_sorted(ctx, b1["out"]), _dumps_sorted(ctx, b2["out"])
+    s1 = pick_scripts(ctx, d1, cap, "own1")
     if b3:
         s1 = sorted(set(s1 + pick_scripts(ctx, _dumps_sorted(ctx, b3["out"]), cap // 4, "own1r3")))
-    s2 = pick_scripts(ctx, _dumps_sorted(ctx, b2["out"]), cap // 3, "own12")
-    r1 = forge_replay(ctx, binp, s1, dict(node=NODE1, own=[1]), cases, "forge_own1", True)
-    r2 = forge_replay(ctx, binp, s2, dict(node=NODE12, own=[1, 2]), cases, "forge_own12", False)
-    for r, own in ((r1, [1]), (r2, [1, 2])):
+    s2 = pick_scripts(ctx, d2, cap // 3, "own12")
+    s1 = s1 + low_last(ctx, d1, cap // 6)
+    s2 = s2 + low_last(ctx, d2, cap // 12)
+    s3 = pick_scripts(ctx, _dumps_sorted(ctx, g1["out"]), cap // 5, "chg1", prefer='"chgforge": true')
+    s4 = pick_scripts(ctx, _dumps_sorted(ctx, g2["out"]), cap // 5, "chg12", prefer='"chgforge": true')
+    with ThreadPoolExecutor(max_workers=4) as ex:
+        fs = [ex.submit(forge_replay, ctx, binp, s1, dict(node=NODE1, own=[1]), cases, "forge_own1", True),
+              ex.submit(forge_replay, ctx, binp, s2, dict(node=NODE12, own=[1, 2]), cases, "forge_own12", False),
+              ex.submit(forge_replay, ctx, binp, s3, dict(node=NODE1C, own=[1]), cases, "forge_chg_own1", False),
+              ex.submit(forge_replay, ctx, binp, s4, dict(node=NODE12C, own=[1, 2]), cases, "forge_chg_own12", False)]
+        r1, r2, r3, r4 = [f.result() for f in fs]
+    runs = ((r1, [1], NODE1), (r2, [1, 2], NODE12), (r3, [1], NODE1C), (r4, [1, 2], NODE12C))
+    for r, own, nd in runs:
         for v in r.get("violations") or []:
             if isinstance(v.get("replay"), dict):
                 v["replay"]["own"] = own
+                v["replay"]["node"] = nd
         report(ctx, r)
-    tot = lambda k: r1[k] + r2[k]
+    tot = lambda k: sum(r[k] for r, _, _ in runs)
+    def totd(k):
+        m = {}
+        for r, _, _ in runs:
+            for kk, v in (r.get(k) or {}).items():
+                m[kk] = m.get(kk, 0) + v
+        return m
+    fill, fill_real = totd("generated_blocks_filling_the_limit_to_the_byte_by_transactions"), totd("of_these_through_unmodified_forge")
     log("[c15] forge: scripts=%d forges=%d (unmodified forge(): %d) crashes=%d restarts=%d switches=%d (shorter %d) lower-forges=%d accepted=%d rejected=%d with-txs=%d aggregate-commits=%d pairs=%d violations=%s / %s" % (
         tot("scripts"), tot("forges"), tot("forges_through_unmodified_forge"), tot("crash_forges"), tot("restarts"), tot("switches"),
         tot("switches_to_shorter_chain"), tot("forges_below_largest_height_ever"), tot("generated_blocks_accepted"), tot("generated_blocks_rejected"),
         tot("generated_blocks_with_transactions"), tot("generated_blocks_with_aggregate_commit"), tot("header_pairs_checked_for_contradiction"),
-        r1.get("violations_per_key"), r2.get("violations_per_key")))
+        r1.get("violations_per_key"), [r.get("violations_per_key") for r in (r2, r3, r4)]))
+    log("[c15] forge: restart + next header after the unmodified forge()=%d (after a forge below the largest height ever: %d) after a validator-set change=%d (%d on the changing block) "
+        "two unsorted assets=%d after-hook events=%d failed-but-included=%d application errors in the pool=%d declined=%d info records in another layout=%d guard=%s" % (
+        tot("restart_and_next_header_after_unmodified_forge"), tot("of_these_after_a_forge_below_the_largest_height_ever"), tot("forges_after_validator_set_change"),
+        tot("forges_directly_after_the_changing_block"), tot("generated_blocks_with_two_unsorted_assets"), tot("generated_blocks_with_after_hook_event"),
+        tot("generated_blocks_with_failed_but_included_transaction"), tot("forges_with_abi_error_in_pool"), tot("forges_declined_or_failed_without_block"),
+        tot("generator_info_records_not_in_todays_layout"), guard.get("equal")))
+    log("[c15] forge: accepted blocks whose payload fills the byte limit exactly, by number of transactions: %s (through the unmodified forge(): %s); blocks per limit delta (bytes): %s" % (
+        fill, fill_real, totd("generated_blocks_per_limit_delta_bytes")))
+    if ctx.violations:
+        open_keys = {f["key"] for f in common.load_findings() if f["property"] == ctx.pid and f.get("status") == "open"}
+        if any(k not in open_keys for k, _, _ in ctx.violations):
+            # the verdict is decided: the shared certificate cases and the hand-over part (minutes) would not change it
+            finish(ctx, LEVEL, dict(traces_validated_against_impl=tot("scripts"), samples=[str(ctx.violations[0][1])[:300]],
+                                    note="violation observed in parts (a)-(c); the certificate pool cases and the hand-over part were not run"))
     # the aggregate commit a generated block carries is whatever GetAggregateCommit assembles from the pool: for every set
     # of certifying validators on chains with finality and validator-set changes (the C06 pool cases) it must pass the
     # node's own verification, or the node rejects its own block
@@ -313,6 +442,24 @@ def run(ctx):
     cres, _ = c06.run_cert(ctx, lambda k: k.startswith("own-aggregate-rejected"), replay_ok=False)
     # moving the validator to another node (the operator interface of pkg/engine/endpoint): spec/Handover.tla
     ho = handover(ctx)
+    if not ctx.violations:
+        # the statement is about the blocks that ARE produced: a generator that declines (or a selection that fails) violates
+        # nothing, but the behaviours of the specification could not be followed - no verdict
+        if tot("forges_declined_or_failed_without_block") or rs["selections_aborted_with_error"]:
+            notes = [n for r, _, _ in runs for n in (r.get("declined_notes") or [])]
+            raise Inconclusive("the generator produced no block in %d slots in which the specification generates / %d selections failed with an error: %s" % (
+                tot("forges_declined_or_failed_without_block"), rs["selections_aborted_with_error"], notes[:2]))
+        if not guard.get("equal"):
+            raise Inconclusive("VerifForgeOnce (pkg/generator/export_verif.go) is no longer forge() apart from the documented differences, so all forges but one "
+                               "per script ran through a stale copy: %s | forge(): %s | copy: %s" % (guard.get("error") or "first difference", guard.get("first_difference_forge"), guard.get("first_difference_copy")))
+        if (tot("restart_and_next_header_after_unmodified_forge") < 300 or tot("of_these_after_a_forge_below_the_largest_height_ever") < 60
+                or r3["forges_directly_after_the_changing_block"] < 15 or r4["forges_directly_after_the_changing_block"] < 15
+                or r3["forges_after_validator_set_change"] < 40 or r4["forges_after_validator_set_change"] < 40
+                or tot("generated_blocks_with_two_unsorted_assets") < 200 or tot("generated_blocks_with_after_hook_event") < 500
+                or tot("generated_blocks_with_failed_but_included_transaction") < 40 or tot("forges_with_abi_error_in_pool") < 40
+                or min(fill.get(str(k), 0) for k in (1, 2, 3, 4)) < 15 or sum(fill_real.values()) < 30
+                or min(totd("generated_blocks_per_limit_delta_bytes").get(d, 0) for d in ("-1", "0", "1")) < 200):
+            raise Inconclusive("the replayed scripts did not exercise enough of the added scenarios (next header after forge() / validator-set change / two assets / after-hook events / Fail results / application errors / payloads filling the limit to the byte): vacuous")
     if (tot("forges") < 500 or tot("forges_through_unmodified_forge") < 200 or tot("crash_forges") < 20 or tot("switches_to_shorter_chain") < 50
             or tot("forges_below_largest_height_ever") < 20 or tot("generated_blocks_with_transactions") < 100
             or tot("generated_blocks_with_aggregate_commit") < 2 or tot("header_pairs_checked_for_contradiction") < 300
@@ -336,15 +483,33 @@ def run(ctx):
         transactions_included=tot("transactions_included"), generated_blocks_with_aggregate_commit=tot("generated_blocks_with_aggregate_commit"),
         aggregate_commits_of_signer_subset=tot("aggregate_commits_of_signer_subset"),
         header_pairs_checked_for_contradiction=tot("header_pairs_checked_for_contradiction"), generator_info_reads_compared=tot("generator_info_reads_compared"),
-        directed_scenarios=r1["directed_scenarios"], **ho,
-        rule="(a) every enumerated / drawn pool x limit: payload of the real selectTransactionsByFee must be one of the admissible payloads of Select; "
+        directed_scenarios=r1["directed_scenarios"],
+        behaviour_states_with_validator_set_change=dict(own1=g1["distinct"], own12=g2["distinct"]), scripts_with_validator_set_change=dict(own1=len(s3), own12=len(s4)),
+        restart_and_next_header_after_unmodified_forge=tot("restart_and_next_header_after_unmodified_forge"),
+        of_these_after_a_forge_below_the_largest_height_ever=tot("of_these_after_a_forge_below_the_largest_height_ever"),
+        forges_after_validator_set_change=tot("forges_after_validator_set_change"), forges_directly_after_the_changing_block=tot("forges_directly_after_the_changing_block"),
+        generated_blocks_with_two_unsorted_assets=tot("generated_blocks_with_two_unsorted_assets"), generated_blocks_with_after_hook_event=tot("generated_blocks_with_after_hook_event"),
+        generated_blocks_with_failed_but_included_transaction=tot("generated_blocks_with_failed_but_included_transaction"), forges_with_abi_error_in_pool=tot("forges_with_abi_error_in_pool"),
+        forges_declined_or_failed_without_block=tot("forges_declined_or_failed_without_block"), generator_info_records_not_in_todays_layout=tot("generator_info_records_not_in_todays_layout"),
+        selections_with_boundary_rank_table=rs["selections_with_boundary_rank_table"], selections_with_5_or_more_senders=rs["selections_with_5_or_more_senders"],
+        selections_with_7_or_more_transactions_taken=rs["selections_with_7_or_more_transactions_taken"], selection_cases_per_outcome=rs["selection_cases_per_outcome"],
+        selections_that_skip_a_candidate_that_does_not_fit=rs["selections_that_skip_a_candidate_that_does_not_fit"],
+        generated_blocks_filling_the_limit_to_the_byte_by_transactions=fill, of_these_through_unmodified_forge=fill_real,
+        generated_blocks_per_limit_delta_bytes=totd("generated_blocks_per_limit_delta_bytes"), selections_per_limit_delta_bytes=rs["selections_per_limit_delta_bytes"],
+        selections_filling_the_limit_exactly=rs["selections_filling_the_limit_exactly"],
+        verifforgeonce_equals_forge=bool(guard.get("equal")), experimental=os.environ.get("VERIF_EXPERIMENTAL") == "1", **ho,
+        rule="(a) every enumerated / drawn pool x limit x rank table: payload of the real selectTransactionsByFee must be one of the admissible payloads of Select; "
              "(b) every printed script replayed on the real Generator + Executer: header (height, maxHeightPrevoted, maxHeightGenerated) equal to the "
              "specification, all headers handed on by one generator pairwise non-contradicting under the real AreDistinctHeadersContradicting and under "
-             "LiskBFT!Contra, generator info present at the hand-off and after a crash at the hand-off; (c) every produced block accepted by the same node")
+             "LiskBFT!Contra, the generator database records the largest height ever generated at the hand-off, after a crash at the hand-off and after "
+             "every forge; after the unmodified forge() the restarted generator's next header reports the specification's maxHeightGenerated; "
+             "(c) every produced block accepted by the same node")
     finish(ctx, LEVEL, cov, assumptions=[
         "toy application (deterministic state root chain, scripted verify/execute outcomes and block assets) instead of pkg/framework",
-        "3 validators (weights 1,3,3 with generator 1 under test; weights 1,1,5 with generators 1 and 2 under test), batch size 3, chains of <= 6 blocks, <= 8 steps, one chain switch / crash / restart per behaviour",
+        "3 validators (weights 1,3,3 with generator 1 under test; weights 1,1,5 with generators 1 and 2 under test), batch size 3, chains of <= 6 blocks, <= 8 steps, one chain switch / crash / restart per behaviour; "
+        "validator-set changes: one per behaviour, in a block of another validator (weights 1,2,4 / generator list 3,1,2; weights 1,2,5 / generator list 2,1,3), behaviours of <= 5 (thorough 6) steps",
         "fork choice as environment assumption: the generator only generates on a chain that is not worse (maxHeightPrevoted, height) than any chain the node left; a crash after the hand-off is C13's subject",
-        "all Forges of a script except the last run through VerifForgeOnce (forge() with the two time.Now() reads replaced by the slot's time); the last one and every directed scenario's last one run through the unmodified forge() at wall-clock time (100000 s slots)",
-        "transaction sizes are multiples of 256 bytes, fee priority = rank * 1000; pools beyond %d transactions are sampled (seeded), not enumerated" % maxtx,
+        "all Forges of a script except the last run through VerifForgeOnce (forge() with the two time.Now() reads replaced by the slot's time; compared with forge() by a go/ast guard); the last one and every directed scenario's last one run through the unmodified forge() at wall-clock time (100000 s slots); the header signed after the following restart lies in a future slot and is not processed",
+        "transaction sizes are multiples of 256 bytes; the generator's MaxTransactionsSize and the chain's MaxTransactionsLength are the same number; the pool is emptied and refilled before every forge; pools beyond %d transactions are sampled (seeded), not enumerated" % maxtx,
+        "VERIF_EXPERIMENTAL=1 (bin/check's default for C15): the application's state root depends on the order in which the hooks receive the block assets; 0: it reads them by module name",
         "BLS / Ed25519 / SHA-256 / pebble trusted; durability judged on pebble's strict in-memory file system"])
